@@ -128,6 +128,7 @@ class Ctx:
             if "NamedTuple" in bases or "dataclass" in decos:
                 names |= {st.target.id for st in ci.node.body if isinstance(st, ast.AnnAssign) and isinstance(st.target, ast.Name)}
         _df.RECORD_FIELD_NAMES = names
+        _df.RECORD_RESULT_INDEX = self._record_result_index
         self._summaries = None
         self.notes: List[str] = []
         self.functions_analysed: set = set()
@@ -190,6 +191,91 @@ class Ctx:
         if "NamedTuple" not in bases and "dataclass" not in decos:
             return None
         return [st.target.id for st in obj.node.body if isinstance(st, ast.AnnAssign) and isinstance(st.target, ast.Name)]
+
+    def _record_class_fields(self, ci) -> Optional[List[str]]:
+        from .program import dotted as _d
+        bases = {(_d(b) or "").split(".")[-1] for b in ci.node.bases}
+        decos = {(_d(x if not isinstance(x, ast.Call) else x.func) or "").split(".")[-1] for x in ci.node.decorator_list}
+        if "NamedTuple" not in bases and "dataclass" not in decos:
+            return None
+        return [st.target.id for st in ci.node.body if isinstance(st, ast.AnnAssign) and isinstance(st.target, ast.Name)]
+
+    def _returned_record(self, t: FuncInfo, depth: int = 0) -> Optional[List[str]]:
+        """Field names of the record class every `return` / `yield` of *t* constructs (or its return annotation names)."""
+        from .program import dotted as _d
+        cache = self.__dict__.setdefault("_ret_rec", {})
+        if t.qualname in cache:
+            return cache[t.qualname]
+        cache[t.qualname] = None
+        res = None
+        ann = getattr(t.node, "returns", None)
+        names = []
+        if ann is not None:
+            for x in ast.walk(ann):
+                if isinstance(x, (ast.Name, ast.Attribute)) and _d(x):
+                    names.append(_d(x))
+                elif isinstance(x, ast.Constant) and isinstance(x.value, str):
+                    names.append(x.value.strip())
+        for nm in names:
+            try:
+                kind, obj = self.program.resolve_dotted(t.module, nm, t)
+            except Exception:
+                continue
+            if kind == "class":
+                f_ = self._record_class_fields(obj)
+                if f_:
+                    res = f_
+        if res is None and depth < 3:
+            found = []
+            ok = True
+            for x in walk_local(t.node):
+                v = None
+                if isinstance(x, ast.Return):
+                    v = x.value
+                elif isinstance(x, ast.Yield):
+                    v = x.value
+                else:
+                    continue
+                if isinstance(v, ast.Await):
+                    v = v.value
+                if v is None or (isinstance(v, ast.Constant) and v.value is None):
+                    continue
+                if not (isinstance(v, ast.Call) and _d(v.func)):
+                    ok = False
+                    break
+                try:
+                    kind, obj = self.program.resolve_dotted(t.module, _d(v.func), t)
+                except Exception:
+                    ok = False
+                    break
+                f_ = self._record_class_fields(obj) if kind == "class" else (self._returned_record(obj, depth + 1) if kind == "func" else None)
+                if not f_:
+                    ok = False
+                    break
+                found.append(tuple(f_))
+            if ok and found and len(set(found)) == 1:
+                res = list(found[0])
+        cache[t.qualname] = res
+        return res
+
+    def _record_result_index(self, fi: FuncInfo, node, call, attr: str) -> Optional[int]:
+        if isinstance(call, ast.Await):
+            call = call.value
+        if not isinstance(call, ast.Call):
+            return None
+        where_fi = fi
+        q = getattr(node, "extra", {}).get("inlined_from") if node is not None else None
+        try:
+            res = self.program.resolve_call(where_fi, call)
+        except Exception:
+            return None
+        idxs = set()
+        for t in res.targets:
+            f_ = self._returned_record(t)
+            if not f_ or attr not in f_:
+                return None
+            idxs.add(f_.index(attr))
+        return idxs.pop() if len(idxs) == 1 else None
 
     def module_at(self, fi: FuncInfo, node):
         """The module whose names the code at CFG *node* of *fi* refers to (the helper's module for inlined code)."""
